@@ -4,10 +4,10 @@ C04 proofs — structural invariants (boundReg, parAlive, bindAlive, dyingOk, bi
 import TbbVerif.Proofs.C04.StructE
 
 namespace TbbVerif.C04
-variable {cfg : Cfg} {reg : List Nat} {s : St} {t : Nat}
+variable {cfg : Cfg} {r : List RF} {reg : List Nat} {s : St} {t : Nat}
 
-theorem boundReg_exec (hS : Struct reg s) :
-    ∀ x, (exec cfg reg s t).cst x = .bound → (exec cfg reg s t).dying x = false → ∃ L, (exec cfg reg s t).lst x = some L ∧ x ∈ (exec cfg reg s t).items L := by
+theorem boundReg_exec_c (hS : Struct reg s) :
+    ∀ x, (execCancel cfg reg s t).cst x = .bound → (execCancel cfg reg s t).dying x = false → ∃ L, (execCancel cfg reg s t).lst x = some L ∧ x ∈ (execCancel cfg reg s t).items L := by
   have g0 := hS.boundReg
   have g1 := hS.regMem
   have g1t := hS.regMem t
@@ -16,7 +16,11 @@ theorem boundReg_exec (hS : Struct reg s) :
   have g3t := hS.dyingOk t
   have g4 := hS.ownsSt
   have g4t := hS.ownsSt t
-  exec_cases
+  unfold execCancel
+  try unfold walkNext
+  try unfold afterHint
+  try unfold applyReset
+  repeat' split
   all_goals (try rw [‹s.pc t = _›] at g1t)
   all_goals (try simp [Pc.registered, Pc.destroying, Pc.owns, List.mem_cons] at g1t)
   all_goals (try rw [‹s.pc t = _›] at g3t)
@@ -26,8 +30,65 @@ theorem boundReg_exec (hS : Struct reg s) :
   all_goals (intro x h1 h2; try simp [upd_apply, afterLists, nextList] at h1 h2 ⊢)
   all_goals grind [Pc.registered, Pc.destroying, Pc.owns, List.mem_cons]
 
+theorem boundReg_exec_b (hS : Struct reg s) :
+    ∀ x, (execBind cfg s t).cst x = .bound → (execBind cfg s t).dying x = false → ∃ L, (execBind cfg s t).lst x = some L ∧ x ∈ (execBind cfg s t).items L := by
+  have g0 := hS.boundReg
+  have g1 := hS.regMem
+  have g1t := hS.regMem t
+  have g2 := hS.itemsOk
+  have g3 := hS.dyingOk
+  have g3t := hS.dyingOk t
+  have g4 := hS.ownsSt
+  have g4t := hS.ownsSt t
+  unfold execBind
+  try unfold walkNext
+  try unfold afterHint
+  try unfold applyReset
+  repeat' split
+  all_goals (try rw [‹s.pc t = _›] at g1t)
+  all_goals (try simp [Pc.registered, Pc.destroying, Pc.owns, List.mem_cons] at g1t)
+  all_goals (try rw [‹s.pc t = _›] at g3t)
+  all_goals (try simp [Pc.registered, Pc.destroying, Pc.owns, List.mem_cons] at g3t)
+  all_goals (try rw [‹s.pc t = _›] at g4t)
+  all_goals (try simp [Pc.registered, Pc.destroying, Pc.owns, List.mem_cons] at g4t)
+  all_goals (intro x h1 h2; try simp [upd_apply, afterLists, nextList] at h1 h2 ⊢)
+  all_goals grind [Pc.registered, Pc.destroying, Pc.owns, List.mem_cons]
+
+theorem boundReg_exec_o (hS : Struct reg s) :
+    ∀ x, (execOther s t).cst x = .bound → (execOther s t).dying x = false → ∃ L, (execOther s t).lst x = some L ∧ x ∈ (execOther s t).items L := by
+  have g0 := hS.boundReg
+  have g1 := hS.regMem
+  have g1t := hS.regMem t
+  have g2 := hS.itemsOk
+  have g3 := hS.dyingOk
+  have g3t := hS.dyingOk t
+  have g4 := hS.ownsSt
+  have g4t := hS.ownsSt t
+  unfold execOther
+  try unfold walkNext
+  try unfold afterHint
+  try unfold applyReset
+  repeat' split
+  all_goals (try rw [‹s.pc t = _›] at g1t)
+  all_goals (try simp [Pc.registered, Pc.destroying, Pc.owns, List.mem_cons] at g1t)
+  all_goals (try rw [‹s.pc t = _›] at g3t)
+  all_goals (try simp [Pc.registered, Pc.destroying, Pc.owns, List.mem_cons] at g3t)
+  all_goals (try rw [‹s.pc t = _›] at g4t)
+  all_goals (try simp [Pc.registered, Pc.destroying, Pc.owns, List.mem_cons] at g4t)
+  all_goals (intro x h1 h2; try simp [upd_apply, afterLists, nextList] at h1 h2 ⊢)
+  all_goals grind [Pc.registered, Pc.destroying, Pc.owns, List.mem_cons]
+
+theorem boundReg_exec (hS : Struct reg s) :
+    ∀ x, (exec cfg reg s t).cst x = .bound → (exec cfg reg s t).dying x = false → ∃ L, (exec cfg reg s t).lst x = some L ∧ x ∈ (exec cfg reg s t).items L := by
+  unfold exec
+  split
+  · exact boundReg_exec_c hS
+  · split
+    · exact boundReg_exec_b hS
+    · exact boundReg_exec_o hS
+
 theorem boundReg_begin (hS : Struct reg s) (hi : s.pc t = .idle) :
-    ∀ x, (begin reg s t).cst x = .bound → (begin reg s t).dying x = false → ∃ L, (begin reg s t).lst x = some L ∧ x ∈ (begin reg s t).items L := by
+    ∀ x, (begin cfg reg s t).cst x = .bound → (begin cfg reg s t).dying x = false → ∃ L, (begin cfg reg s t).lst x = some L ∧ x ∈ (begin cfg reg s t).items L := by
   have g0 := hS.boundReg
   have g1 := hS.regMem
   have g1t := hS.regMem t
@@ -46,8 +107,8 @@ theorem boundReg_begin (hS : Struct reg s) (hi : s.pc t = .idle) :
   all_goals (intro x h1 h2; try simp [upd_apply, afterLists, nextList] at h1 h2 ⊢)
   all_goals grind [Pc.registered, Pc.destroying, Pc.owns, List.mem_cons]
 
-theorem parAlive_exec (hS : Struct reg s) :
-    ∀ L x p, x ∈ (exec cfg reg s t).items L → (exec cfg reg s t).par x = some p → ((exec cfg reg s t).cst p = .bound ∨ (exec cfg reg s t).cst p = .isolated) ∧ (exec cfg reg s t).dying p = false := by
+theorem parAlive_exec_c (hS : Struct reg s) :
+    ∀ L x p, x ∈ (execCancel cfg reg s t).items L → (execCancel cfg reg s t).par x = some p → ((execCancel cfg reg s t).cst p = .bound ∨ (execCancel cfg reg s t).cst p = .isolated) ∧ (execCancel cfg reg s t).dying p = false := by
   have g0 := hS.parAlive
   have g1 := hS.bindAlive
   have g1t := hS.bindAlive t
@@ -59,7 +120,11 @@ theorem parAlive_exec (hS : Struct reg s) :
   have g5 := hS.parSet
   have g6 := hS.ownsSt
   have g6t := hS.ownsSt t
-  exec_cases
+  unfold execCancel
+  try unfold walkNext
+  try unfold afterHint
+  try unfold applyReset
+  repeat' split
   all_goals (try rw [‹s.pc t = _›] at g1t)
   all_goals (try simp [okParent, Pc.bindParent, Pc.owner, Pc.owns, Pc.destroying, List.mem_of_mem_erase, List.mem_cons] at g1t)
   all_goals (try rw [‹s.pc t = _›] at g3t)
@@ -71,8 +136,75 @@ theorem parAlive_exec (hS : Struct reg s) :
   all_goals (intro L x p h1 h2; try simp [upd_apply, afterLists, nextList] at h1 h2 ⊢)
   all_goals grind [okParent, Pc.bindParent, Pc.owner, Pc.owns, Pc.destroying, List.mem_of_mem_erase, List.mem_cons]
 
+theorem parAlive_exec_b (hS : Struct reg s) :
+    ∀ L x p, x ∈ (execBind cfg s t).items L → (execBind cfg s t).par x = some p → ((execBind cfg s t).cst p = .bound ∨ (execBind cfg s t).cst p = .isolated) ∧ (execBind cfg s t).dying p = false := by
+  have g0 := hS.parAlive
+  have g1 := hS.bindAlive
+  have g1t := hS.bindAlive t
+  have g2 := hS.itemsOk
+  have g3 := hS.dyingOk
+  have g3t := hS.dyingOk t
+  have g4 := hS.ownerPar
+  have g4t := hS.ownerPar t
+  have g5 := hS.parSet
+  have g6 := hS.ownsSt
+  have g6t := hS.ownsSt t
+  unfold execBind
+  try unfold walkNext
+  try unfold afterHint
+  try unfold applyReset
+  repeat' split
+  all_goals (try rw [‹s.pc t = _›] at g1t)
+  all_goals (try simp [okParent, Pc.bindParent, Pc.owner, Pc.owns, Pc.destroying, List.mem_of_mem_erase, List.mem_cons] at g1t)
+  all_goals (try rw [‹s.pc t = _›] at g3t)
+  all_goals (try simp [okParent, Pc.bindParent, Pc.owner, Pc.owns, Pc.destroying, List.mem_of_mem_erase, List.mem_cons] at g3t)
+  all_goals (try rw [‹s.pc t = _›] at g4t)
+  all_goals (try simp [okParent, Pc.bindParent, Pc.owner, Pc.owns, Pc.destroying, List.mem_of_mem_erase, List.mem_cons] at g4t)
+  all_goals (try rw [‹s.pc t = _›] at g6t)
+  all_goals (try simp [okParent, Pc.bindParent, Pc.owner, Pc.owns, Pc.destroying, List.mem_of_mem_erase, List.mem_cons] at g6t)
+  all_goals (intro L x p h1 h2; try simp [upd_apply, afterLists, nextList] at h1 h2 ⊢)
+  all_goals grind [okParent, Pc.bindParent, Pc.owner, Pc.owns, Pc.destroying, List.mem_of_mem_erase, List.mem_cons]
+
+theorem parAlive_exec_o (hS : Struct reg s) :
+    ∀ L x p, x ∈ (execOther s t).items L → (execOther s t).par x = some p → ((execOther s t).cst p = .bound ∨ (execOther s t).cst p = .isolated) ∧ (execOther s t).dying p = false := by
+  have g0 := hS.parAlive
+  have g1 := hS.bindAlive
+  have g1t := hS.bindAlive t
+  have g2 := hS.itemsOk
+  have g3 := hS.dyingOk
+  have g3t := hS.dyingOk t
+  have g4 := hS.ownerPar
+  have g4t := hS.ownerPar t
+  have g5 := hS.parSet
+  have g6 := hS.ownsSt
+  have g6t := hS.ownsSt t
+  unfold execOther
+  try unfold walkNext
+  try unfold afterHint
+  try unfold applyReset
+  repeat' split
+  all_goals (try rw [‹s.pc t = _›] at g1t)
+  all_goals (try simp [okParent, Pc.bindParent, Pc.owner, Pc.owns, Pc.destroying, List.mem_of_mem_erase, List.mem_cons] at g1t)
+  all_goals (try rw [‹s.pc t = _›] at g3t)
+  all_goals (try simp [okParent, Pc.bindParent, Pc.owner, Pc.owns, Pc.destroying, List.mem_of_mem_erase, List.mem_cons] at g3t)
+  all_goals (try rw [‹s.pc t = _›] at g4t)
+  all_goals (try simp [okParent, Pc.bindParent, Pc.owner, Pc.owns, Pc.destroying, List.mem_of_mem_erase, List.mem_cons] at g4t)
+  all_goals (try rw [‹s.pc t = _›] at g6t)
+  all_goals (try simp [okParent, Pc.bindParent, Pc.owner, Pc.owns, Pc.destroying, List.mem_of_mem_erase, List.mem_cons] at g6t)
+  all_goals (intro L x p h1 h2; try simp [upd_apply, afterLists, nextList] at h1 h2 ⊢)
+  all_goals grind [okParent, Pc.bindParent, Pc.owner, Pc.owns, Pc.destroying, List.mem_of_mem_erase, List.mem_cons]
+
+theorem parAlive_exec (hS : Struct reg s) :
+    ∀ L x p, x ∈ (exec cfg reg s t).items L → (exec cfg reg s t).par x = some p → ((exec cfg reg s t).cst p = .bound ∨ (exec cfg reg s t).cst p = .isolated) ∧ (exec cfg reg s t).dying p = false := by
+  unfold exec
+  split
+  · exact parAlive_exec_c hS
+  · split
+    · exact parAlive_exec_b hS
+    · exact parAlive_exec_o hS
+
 theorem parAlive_begin (hS : Struct reg s) (hi : s.pc t = .idle) :
-    ∀ L x p, x ∈ (begin reg s t).items L → (begin reg s t).par x = some p → ((begin reg s t).cst p = .bound ∨ (begin reg s t).cst p = .isolated) ∧ (begin reg s t).dying p = false := by
+    ∀ L x p, x ∈ (begin cfg reg s t).items L → (begin cfg reg s t).par x = some p → ((begin cfg reg s t).cst p = .bound ∨ (begin cfg reg s t).cst p = .isolated) ∧ (begin cfg reg s t).dying p = false := by
   have g0 := hS.parAlive
   have g1 := hS.bindAlive
   have g1t := hS.bindAlive t
@@ -96,8 +228,8 @@ theorem parAlive_begin (hS : Struct reg s) (hi : s.pc t = .idle) :
   all_goals (intro L x p h1 h2; try simp [upd_apply, afterLists, nextList] at h1 h2 ⊢)
   all_goals grind [okParent, Pc.bindParent, Pc.owner, Pc.owns, Pc.destroying, List.mem_of_mem_erase, List.mem_cons]
 
-theorem bindAlive_exec (hS : Struct reg s) :
-    ∀ t' p, ((exec cfg reg s t).pc t').bindParent = some p → ((exec cfg reg s t).cst p = .bound ∨ (exec cfg reg s t).cst p = .isolated) ∧ (exec cfg reg s t).dying p = false := by
+theorem bindAlive_exec_c (hS : Struct reg s) :
+    ∀ t' p, ((execCancel cfg reg s t).pc t').bindParent = some p → ((execCancel cfg reg s t).cst p = .bound ∨ (execCancel cfg reg s t).cst p = .isolated) ∧ (execCancel cfg reg s t).dying p = false := by
   have g0 := hS.bindAlive
   have g0t := hS.bindAlive t
   have g1 := hS.dyingOk
@@ -106,7 +238,11 @@ theorem bindAlive_exec (hS : Struct reg s) :
   have g2t := hS.bindReg t
   have g3 := hS.ownsSt
   have g3t := hS.ownsSt t
-  exec_cases
+  unfold execCancel
+  try unfold walkNext
+  try unfold afterHint
+  try unfold applyReset
+  repeat' split
   all_goals (try rw [‹s.pc t = _›] at g0t)
   all_goals (try simp [okParent, Pc.bindParent, Pc.destroying, Pc.bindParent_isBind, Pc.owns] at g0t)
   all_goals (try rw [‹s.pc t = _›] at g1t)
@@ -118,8 +254,69 @@ theorem bindAlive_exec (hS : Struct reg s) :
   all_goals (intro t' p h1; by_cases ht : t' = t <;> first | (subst ht; try simp [upd_apply, afterLists, nextList, okParent, Pc.bindParent, Pc.destroying, Pc.bindParent_isBind, Pc.owns] at h1 ⊢) | (try simp [ht, upd_apply, afterLists, nextList] at h1 ⊢))
   all_goals grind [okParent, Pc.bindParent, Pc.destroying, Pc.bindParent_isBind, Pc.owns]
 
+theorem bindAlive_exec_b (hS : Struct reg s) :
+    ∀ t' p, ((execBind cfg s t).pc t').bindParent = some p → ((execBind cfg s t).cst p = .bound ∨ (execBind cfg s t).cst p = .isolated) ∧ (execBind cfg s t).dying p = false := by
+  have g0 := hS.bindAlive
+  have g0t := hS.bindAlive t
+  have g1 := hS.dyingOk
+  have g1t := hS.dyingOk t
+  have g2 := hS.bindReg
+  have g2t := hS.bindReg t
+  have g3 := hS.ownsSt
+  have g3t := hS.ownsSt t
+  unfold execBind
+  try unfold walkNext
+  try unfold afterHint
+  try unfold applyReset
+  repeat' split
+  all_goals (try rw [‹s.pc t = _›] at g0t)
+  all_goals (try simp [okParent, Pc.bindParent, Pc.destroying, Pc.bindParent_isBind, Pc.owns] at g0t)
+  all_goals (try rw [‹s.pc t = _›] at g1t)
+  all_goals (try simp [okParent, Pc.bindParent, Pc.destroying, Pc.bindParent_isBind, Pc.owns] at g1t)
+  all_goals (try rw [‹s.pc t = _›] at g2t)
+  all_goals (try simp [okParent, Pc.bindParent, Pc.destroying, Pc.bindParent_isBind, Pc.owns] at g2t)
+  all_goals (try rw [‹s.pc t = _›] at g3t)
+  all_goals (try simp [okParent, Pc.bindParent, Pc.destroying, Pc.bindParent_isBind, Pc.owns] at g3t)
+  all_goals (intro t' p h1; by_cases ht : t' = t <;> first | (subst ht; try simp [upd_apply, afterLists, nextList, okParent, Pc.bindParent, Pc.destroying, Pc.bindParent_isBind, Pc.owns] at h1 ⊢) | (try simp [ht, upd_apply, afterLists, nextList] at h1 ⊢))
+  all_goals grind [okParent, Pc.bindParent, Pc.destroying, Pc.bindParent_isBind, Pc.owns]
+
+theorem bindAlive_exec_o (hS : Struct reg s) :
+    ∀ t' p, ((execOther s t).pc t').bindParent = some p → ((execOther s t).cst p = .bound ∨ (execOther s t).cst p = .isolated) ∧ (execOther s t).dying p = false := by
+  have g0 := hS.bindAlive
+  have g0t := hS.bindAlive t
+  have g1 := hS.dyingOk
+  have g1t := hS.dyingOk t
+  have g2 := hS.bindReg
+  have g2t := hS.bindReg t
+  have g3 := hS.ownsSt
+  have g3t := hS.ownsSt t
+  unfold execOther
+  try unfold walkNext
+  try unfold afterHint
+  try unfold applyReset
+  repeat' split
+  all_goals (try rw [‹s.pc t = _›] at g0t)
+  all_goals (try simp [okParent, Pc.bindParent, Pc.destroying, Pc.bindParent_isBind, Pc.owns] at g0t)
+  all_goals (try rw [‹s.pc t = _›] at g1t)
+  all_goals (try simp [okParent, Pc.bindParent, Pc.destroying, Pc.bindParent_isBind, Pc.owns] at g1t)
+  all_goals (try rw [‹s.pc t = _›] at g2t)
+  all_goals (try simp [okParent, Pc.bindParent, Pc.destroying, Pc.bindParent_isBind, Pc.owns] at g2t)
+  all_goals (try rw [‹s.pc t = _›] at g3t)
+  all_goals (try simp [okParent, Pc.bindParent, Pc.destroying, Pc.bindParent_isBind, Pc.owns] at g3t)
+  all_goals (intro t' p h1; by_cases ht : t' = t <;> first | (subst ht; try simp [upd_apply, afterLists, nextList, okParent, Pc.bindParent, Pc.destroying, Pc.bindParent_isBind, Pc.owns] at h1 ⊢) | (try simp [ht, upd_apply, afterLists, nextList] at h1 ⊢))
+  all_goals grind [okParent, Pc.bindParent, Pc.destroying, Pc.bindParent_isBind, Pc.owns]
+
+theorem bindAlive_exec (hS : Struct reg s) :
+    ∀ t' p, ((exec cfg reg s t).pc t').bindParent = some p → ((exec cfg reg s t).cst p = .bound ∨ (exec cfg reg s t).cst p = .isolated) ∧ (exec cfg reg s t).dying p = false := by
+  unfold exec
+  split
+  · exact bindAlive_exec_c hS
+  · split
+    · exact bindAlive_exec_b hS
+    · exact bindAlive_exec_o hS
+
 theorem bindAlive_begin (hS : Struct reg s) (hi : s.pc t = .idle) :
-    ∀ t' p, ((begin reg s t).pc t').bindParent = some p → ((begin reg s t).cst p = .bound ∨ (begin reg s t).cst p = .isolated) ∧ (begin reg s t).dying p = false := by
+    ∀ t' p, ((begin cfg reg s t).pc t').bindParent = some p → ((begin cfg reg s t).cst p = .bound ∨ (begin cfg reg s t).cst p = .isolated) ∧ (begin cfg reg s t).dying p = false := by
   have g0 := hS.bindAlive
   have g0t := hS.bindAlive t
   have g1 := hS.dyingOk
@@ -140,18 +337,59 @@ theorem bindAlive_begin (hS : Struct reg s) (hi : s.pc t = .idle) :
   all_goals (intro t' p h1; by_cases ht : t' = t <;> first | (subst ht; try simp [upd_apply, afterLists, nextList, okParent, Pc.bindParent, Pc.destroying, Pc.bindParent_isBind, Pc.owns] at h1 ⊢) | (try simp [ht, upd_apply, afterLists, nextList] at h1 ⊢))
   all_goals grind [okParent, Pc.bindParent, Pc.destroying, Pc.bindParent_isBind, Pc.owns]
 
-theorem dyingOk_exec (hS : Struct reg s) :
-    ∀ t' x, ((exec cfg reg s t).pc t').destroying = some x → (exec cfg reg s t).dying x = true := by
+theorem dyingOk_exec_c (hS : Struct reg s) :
+    ∀ t' x, ((execCancel cfg reg s t).pc t').destroying = some x → (execCancel cfg reg s t).dying x = true := by
   have g0 := hS.dyingOk
   have g0t := hS.dyingOk t
-  exec_cases
+  unfold execCancel
+  try unfold walkNext
+  try unfold afterHint
+  try unfold applyReset
+  repeat' split
   all_goals (try rw [‹s.pc t = _›] at g0t)
   all_goals (try simp [Pc.destroying] at g0t)
   all_goals (intro t' x h1; by_cases ht : t' = t <;> first | (subst ht; try simp [upd_apply, afterLists, nextList, Pc.destroying] at h1 ⊢) | (try simp [ht, upd_apply, afterLists, nextList] at h1 ⊢))
   all_goals grind [Pc.destroying]
 
+theorem dyingOk_exec_b (hS : Struct reg s) :
+    ∀ t' x, ((execBind cfg s t).pc t').destroying = some x → (execBind cfg s t).dying x = true := by
+  have g0 := hS.dyingOk
+  have g0t := hS.dyingOk t
+  unfold execBind
+  try unfold walkNext
+  try unfold afterHint
+  try unfold applyReset
+  repeat' split
+  all_goals (try rw [‹s.pc t = _›] at g0t)
+  all_goals (try simp [Pc.destroying] at g0t)
+  all_goals (intro t' x h1; by_cases ht : t' = t <;> first | (subst ht; try simp [upd_apply, afterLists, nextList, Pc.destroying] at h1 ⊢) | (try simp [ht, upd_apply, afterLists, nextList] at h1 ⊢))
+  all_goals grind [Pc.destroying]
+
+theorem dyingOk_exec_o (hS : Struct reg s) :
+    ∀ t' x, ((execOther s t).pc t').destroying = some x → (execOther s t).dying x = true := by
+  have g0 := hS.dyingOk
+  have g0t := hS.dyingOk t
+  unfold execOther
+  try unfold walkNext
+  try unfold afterHint
+  try unfold applyReset
+  repeat' split
+  all_goals (try rw [‹s.pc t = _›] at g0t)
+  all_goals (try simp [Pc.destroying] at g0t)
+  all_goals (intro t' x h1; by_cases ht : t' = t <;> first | (subst ht; try simp [upd_apply, afterLists, nextList, Pc.destroying] at h1 ⊢) | (try simp [ht, upd_apply, afterLists, nextList] at h1 ⊢))
+  all_goals grind [Pc.destroying]
+
+theorem dyingOk_exec (hS : Struct reg s) :
+    ∀ t' x, ((exec cfg reg s t).pc t').destroying = some x → (exec cfg reg s t).dying x = true := by
+  unfold exec
+  split
+  · exact dyingOk_exec_c hS
+  · split
+    · exact dyingOk_exec_b hS
+    · exact dyingOk_exec_o hS
+
 theorem dyingOk_begin (hS : Struct reg s) (hi : s.pc t = .idle) :
-    ∀ t' x, ((begin reg s t).pc t').destroying = some x → (begin reg s t).dying x = true := by
+    ∀ t' x, ((begin cfg reg s t).pc t').destroying = some x → (begin cfg reg s t).dying x = true := by
   have g0 := hS.dyingOk
   have g0t := hS.dyingOk t
   begin_cases
@@ -160,13 +398,17 @@ theorem dyingOk_begin (hS : Struct reg s) (hi : s.pc t = .idle) :
   all_goals (intro t' x h1; by_cases ht : t' = t <;> first | (subst ht; try simp [upd_apply, afterLists, nextList, Pc.destroying] at h1 ⊢) | (try simp [ht, upd_apply, afterLists, nextList] at h1 ⊢))
   all_goals grind [Pc.destroying]
 
-theorem bindNotDying_exec (hS : Struct reg s) :
-    ∀ t' x, ((exec cfg reg s t).pc t').bindTarget = some x → (exec cfg reg s t).dying x = false := by
+theorem bindNotDying_exec_c (hS : Struct reg s) :
+    ∀ t' x, ((execCancel cfg reg s t).pc t').bindTarget = some x → (execCancel cfg reg s t).dying x = false := by
   have g0 := hS.bindNotDying
   have g0t := hS.bindNotDying t
   have g1 := hS.bindReg
   have g1t := hS.bindReg t
-  exec_cases
+  unfold execCancel
+  try unfold walkNext
+  try unfold afterHint
+  try unfold applyReset
+  repeat' split
   all_goals (try rw [‹s.pc t = _›] at g0t)
   all_goals (try simp [Pc.bindTarget, Pc.bindTarget_isBind] at g0t)
   all_goals (try rw [‹s.pc t = _›] at g1t)
@@ -174,8 +416,53 @@ theorem bindNotDying_exec (hS : Struct reg s) :
   all_goals (intro t' x h1; by_cases ht : t' = t <;> first | (subst ht; try simp [upd_apply, afterLists, nextList, Pc.bindTarget, Pc.bindTarget_isBind] at h1 ⊢) | (try simp [ht, upd_apply, afterLists, nextList] at h1 ⊢))
   all_goals grind [Pc.bindTarget, Pc.bindTarget_isBind]
 
+theorem bindNotDying_exec_b (hS : Struct reg s) :
+    ∀ t' x, ((execBind cfg s t).pc t').bindTarget = some x → (execBind cfg s t).dying x = false := by
+  have g0 := hS.bindNotDying
+  have g0t := hS.bindNotDying t
+  have g1 := hS.bindReg
+  have g1t := hS.bindReg t
+  unfold execBind
+  try unfold walkNext
+  try unfold afterHint
+  try unfold applyReset
+  repeat' split
+  all_goals (try rw [‹s.pc t = _›] at g0t)
+  all_goals (try simp [Pc.bindTarget, Pc.bindTarget_isBind] at g0t)
+  all_goals (try rw [‹s.pc t = _›] at g1t)
+  all_goals (try simp [Pc.bindTarget, Pc.bindTarget_isBind] at g1t)
+  all_goals (intro t' x h1; by_cases ht : t' = t <;> first | (subst ht; try simp [upd_apply, afterLists, nextList, Pc.bindTarget, Pc.bindTarget_isBind] at h1 ⊢) | (try simp [ht, upd_apply, afterLists, nextList] at h1 ⊢))
+  all_goals grind [Pc.bindTarget, Pc.bindTarget_isBind]
+
+theorem bindNotDying_exec_o (hS : Struct reg s) :
+    ∀ t' x, ((execOther s t).pc t').bindTarget = some x → (execOther s t).dying x = false := by
+  have g0 := hS.bindNotDying
+  have g0t := hS.bindNotDying t
+  have g1 := hS.bindReg
+  have g1t := hS.bindReg t
+  unfold execOther
+  try unfold walkNext
+  try unfold afterHint
+  try unfold applyReset
+  repeat' split
+  all_goals (try rw [‹s.pc t = _›] at g0t)
+  all_goals (try simp [Pc.bindTarget, Pc.bindTarget_isBind] at g0t)
+  all_goals (try rw [‹s.pc t = _›] at g1t)
+  all_goals (try simp [Pc.bindTarget, Pc.bindTarget_isBind] at g1t)
+  all_goals (intro t' x h1; by_cases ht : t' = t <;> first | (subst ht; try simp [upd_apply, afterLists, nextList, Pc.bindTarget, Pc.bindTarget_isBind] at h1 ⊢) | (try simp [ht, upd_apply, afterLists, nextList] at h1 ⊢))
+  all_goals grind [Pc.bindTarget, Pc.bindTarget_isBind]
+
+theorem bindNotDying_exec (hS : Struct reg s) :
+    ∀ t' x, ((exec cfg reg s t).pc t').bindTarget = some x → (exec cfg reg s t).dying x = false := by
+  unfold exec
+  split
+  · exact bindNotDying_exec_c hS
+  · split
+    · exact bindNotDying_exec_b hS
+    · exact bindNotDying_exec_o hS
+
 theorem bindNotDying_begin (hS : Struct reg s) (hi : s.pc t = .idle) :
-    ∀ t' x, ((begin reg s t).pc t').bindTarget = some x → (begin reg s t).dying x = false := by
+    ∀ t' x, ((begin cfg reg s t).pc t').bindTarget = some x → (begin cfg reg s t).dying x = false := by
   have g0 := hS.bindNotDying
   have g0t := hS.bindNotDying t
   have g1 := hS.bindReg
